@@ -104,7 +104,37 @@ def rec3(ctx):
                           'an entry can be delivered without a closing Last/Full frame or outside an entry (%s)' % ('missing last-frame guard' if g1 else 'missing within_record guard'))
 
 
-@rule('REC4', ['C02', 'C08', 'C12', 'C18'], floor=1, template='must-pass-through')
+@rule('REC7', ['C07', 'C09', 'C12'], floor=1, template='no-store-on-path')
+def rec7(ctx):
+    """A valid frame never makes the record reader abandon the entry it is assembling: on the Ok arm of the frame
+    reader's result `within_record` is cleared only where the entry is delivered (the store is followed by the
+    return, never by another read). Entries whose first frame is empty, or that span many blocks, are assembled
+    from frames that carry no other information than their type."""
+    n = 0
+    for b in rec_bodies(ctx):
+        for cs in b.calls:
+            dl = cs.dest_local()
+            if cs.node is None or dl is None or 'frame::reader::ReadFrameError' not in b.local_ty(dl):
+                continue
+            re_ = result_edges(b, dl)
+            for oe in re_['ok']:
+                region = b.reach([oe[1]], avoid=[cs.point])
+                k = 0
+                for (p, pl, rv) in stores_to(b, 'RecordReader', 'within_record'):
+                    if const_store_val(rv) != 0 or p not in region:
+                        continue
+                    n += 1
+                    k += 1
+                    again = cs.point in b.reach_after(p)
+                    delivered = [e for e in b.exits() if e['point'] in b.reach_after(p)]
+                    okd = bool(delivered) and all(e['kind'] == 'ok' and e['ops'] and op_const_bits(e['ops'][0]) == 1 for e in delivered)
+                    ctx.check(not again and okd, '%s:ok-arm-clear#%d' % (b.path, k), where(b, p), 'on a valid frame, within_record is cleared only on the way to Ok(true)',
+                              'a valid frame can make the reader abandon the entry being assembled (within_record = false on the Ok arm, then the loop goes on): an entry whose frames are all intact would be dropped')
+    if n == 0:
+        ctx.missing('ok-arm-clear', 'no clearing of within_record on the Ok arm of the frame reader result (the delivery of an entry)')
+
+
+@rule('REC4', ['C02', 'C03', 'C08', 'C12', 'C18'], floor=1, template='must-pass-through')
 def rec4(ctx):
     """An entry starts only at a First/Full frame, with a cleared buffer."""
     for b in rec_bodies(ctx):
